@@ -8,6 +8,7 @@ import json
 import os
 import random
 import threading
+import time
 import vf
 
 PID = "C08"
@@ -279,14 +280,34 @@ def model_checks(v, tier):
                  ("Submitter", "MC_Submitter_kinds_big.cfg", 1800), ("Submitter", "MC_Submitter_allfailed_big.cfg", 1800),
                  ("Submitter", "MC_Submitter_hist_kinds.cfg", 1800), ("Submitter", "MC_Submitter_direct_big.cfg", 1800)]
 
+    def killed(out):
+        """the JVM was killed from outside (the machine's OOM killer under load): TLC said neither that it had
+        finished nor what was wrong - infrastructure, the run is repeated"""
+        return "Error:" not in out and "Model checking completed" not in out and "Finished in" not in out
+
     def run_good(job):
         module, cfg, timeout = job
-        return vf.tlc_exhaustive(PID, module, cfg, workers=1 if "Scatter" in cfg else 4, timeout=timeout,
-                                 coverage=(cfg == "MC_Submitter_big.cfg"))
+        # the quick configurations have at most a few 100 000 states: a small heap keeps the resident size small
+        heap = "2g" if timeout <= 900 else "6g"
+        for attempt in range(3):
+            try:
+                return vf.tlc_exhaustive(PID, module, cfg, workers=1 if "Scatter" in cfg else 4, timeout=timeout,
+                                         coverage=(cfg == "MC_Submitter_big.cfg"), heap=heap)
+            except vf.Broken as e:
+                if attempt == 2 or "(error None)" not in str(e) or not killed(str(e)):
+                    raise
+                vf.log("TLC run of %s was killed from outside; repeating it" % cfg)
+                time.sleep(20)
 
     def run_dev(job):
         module, cfg, expect = job
-        r = vf.tlc(PID, "dev-" + cfg.replace(".cfg", ""), module, cfg, workers=2, timeout=600)
+        for attempt in range(3):
+            r = vf.tlc(PID, "dev-" + cfg.replace(".cfg", ""), module, cfg, workers=2, timeout=600, heap="2g")
+            if r["kind"] == "error" and not r["timed_out"] and killed(r["out"]) and attempt < 2:
+                vf.log("TLC run of %s was killed from outside; repeating it" % cfg)
+                time.sleep(20)
+                continue
+            break
         if r["kind"] != "invariant" or r["violated"] not in expect:
             raise vf.Broken("model self-check failed: %s/%s does not violate one of %s (%s %s)\n%s" % (
                 module, cfg, expect, r["kind"], r["violated"], r["out"][-2000:]))
@@ -326,7 +347,14 @@ def run(tier):
         start_early(sc)              # the wired, untimed family is recorded meanwhile
     finally:
         join()                       # ... but never with the timed driver
-    vf.conformance(v, sc, driver, "Trace_Submitter", "Trace_Submitter.cfg", sig_of, nontrivial, tlc_timeout=1200)
+    # The wired sibling family first: none of its instants is judged, so it gives a verdict however loaded the
+    # machine is.  A reproduced violation is final (exit 1) - the timed families could only add to it.
+    direct = [s for s in sc if s.get("sub") == "direct"]
+    vf.conformance(v, direct, driver, "Trace_Submitter", "Trace_Submitter.cfg", sig_of, nontrivial, tlc_timeout=1200)
+    if v.violations:
+        return v.finish()
+    vf.conformance(v, [s for s in sc if s.get("sub") != "direct"], driver, "Trace_Submitter", "Trace_Submitter.cfg", sig_of,
+                   nontrivial, tlc_timeout=1200)
     v.coverage["rule"] = ("multinode: every assignment of the 7 outcomes to 3 nodes (TLC-enumerated) for attestations and sync "
                           "messages (all 8 kinds in thorough, a seeded sample of the others in quick), every assignment of the 4 "
                           "prompt outcomes with concurrency 1 < 3 nodes, the whole classifier table "
